@@ -334,4 +334,45 @@ def fnStringJoin (items : List Str) (sep : Option Str) : Except TypeErr Str := d
   let s ← required sep
   pure (stringJoin items s)
 
+/-! ### F&O 3.1 §5.3.4 the HTML ASCII case-insensitive collation, §5.5 substring matching with a collation
+"The collation is defined … comparison of two strings `$A`, `$B`: compare
+`fn:translate($A, 'ABCDEFGHIJKLMNOPQRSTUVWXYZ', 'abcdefghijklmnopqrstuvwxyz')` with the same for `$B`
+using the Unicode codepoint collation."  A collation unit is one code point, so the functions of §5.5
+match `$arg2` against the factors of `$arg1` of the same length, unit by unit, and return parts of
+the *original* `$arg1`. -/
+
+inductive Collation where
+  | codepoint | htmlAscii
+  deriving DecidableEq, Repr
+
+def upperAZ : Str := List.range' 65 26
+def lowerAZ : Str := List.range' 97 26
+
+def htmlFold (s : Str) : Str := translate s upperAZ lowerAZ
+
+/-- the string whose code points are compared under the collation -/
+def collKey : Collation → Str → Str
+  | .codepoint, s => s
+  | .htmlAscii, s => htmlFold s
+
+def compareC (col : Collation) (a b : Str) : Int := compare (collKey col a) (collKey col b)
+
+def firstOccC (col : Collation) (s t : Str) : Option Nat := firstOcc (collKey col s) (collKey col t)
+
+def containsC (col : Collation) (s t : Str) : Bool := (firstOccC col s t).isSome
+
+def startsWithC (col : Collation) (s t : Str) : Bool := startsWith (collKey col s) (collKey col t)
+
+def endsWithC (col : Collation) (s t : Str) : Bool := endsWith (collKey col s) (collKey col t)
+
+def substringBeforeC (col : Collation) (s t : Str) : Str :=
+  match firstOccC col s t with
+  | none => []
+  | some i => s.take i
+
+def substringAfterC (col : Collation) (s t : Str) : Str :=
+  match firstOccC col s t with
+  | none => []
+  | some i => s.drop (i + t.length)
+
 end EPV.FOStrings
